@@ -34,7 +34,7 @@ REQUIRED_BUCKETS = ["battery-with-zero-capacity-in-a-shared-group", "set-points-
                     "shared-batteries(1 bat:n inv)", "nonzero-exclusion", "adjust_power=True", "adjust_power=False",
                     "probe-on-bound", "irregular-group(batteries with different inverter sets)",
                     "set_power-refused-by-the-api-for-a-power-inside-the-advertised-bounds",
-                    "pool-tier:bounds-stream-first-accessed-after-the-statuses-are-known", "pool-tier:streamed-bounds-compared"]
+                    "pool-tier:bounds-stream-first-accessed-after-the-statuses-are-known", "pool-tier:streamed-bounds-compared", "pool-tier:a-whole-group-of-the-pool-is-not-working"]
 REQUIRED_COUNTERS = ["probes_checked", "inclusion_bounds_compared", "min_power_sums_checked"]
 ASSUMPTIONS = ["fake API / graph; all components healthy"]
 
@@ -95,7 +95,7 @@ def _topology(case: dict[str, Any]) -> tuple[list[Any], list[Any]]:
     return comps, conns
 
 
-def _advertised(case: dict[str, Any]) -> Any:
+def _advertised(case: dict[str, Any], down_group: int | None = None) -> Any:
     """Run the real PowerBoundsCalculator on the case's data."""
     from frequenz.client.microgrid import ComponentMetricId as M
 
@@ -120,6 +120,8 @@ def _advertised(case: dict[str, Any]) -> Any:
     working = set(bats)
     if case.get("not_working"):
         working.discard(_bid(case, *case["not_working"]))
+    if down_group is not None:
+        working -= {_bid(case, down_group, j) for j in range(len(case["groups"][down_group]["bats"]))}
     return calc.calculate(metrics, working)
 
 
@@ -204,7 +206,13 @@ async def _drive_pool(case: dict[str, Any], out: dict[str, Any]) -> None:
     comps, conns = _topology(case)
     api = fakes.install_connection_manager(comps, conns)
     ids = {_bid(case, g, j) for g, grp in enumerate(case["groups"]) for j in range(len(grp["bats"]))}
-    working = set(ids) - {_bid(case, *case["not_working"])}
+    working = set(ids)
+    if case.get("not_working"):
+        working.discard(_bid(case, *case["not_working"]))
+    down = out.get("down_group")
+    if down is not None:
+        # no battery of this group is working (their data keeps arriving)
+        working -= {_bid(case, down, j) for j in range(len(case["groups"][down]["bats"]))}
     status_ch = Broadcast(name="battery-status", resend_latest=True)
     store = BatteryPoolReferenceStore(
         channel_registry=ChannelRegistry(name="vf"), resampler_subscription_sender=Broadcast(name="rs").new_sender(),
@@ -236,6 +244,12 @@ async def _drive_pool(case: dict[str, Any], out: dict[str, Any]) -> None:
 
 def _pool_tier(case: dict[str, Any], sb: Any, rec: Any) -> None:
     out: dict[str, Any] = {}
+    if len(case["groups"]) >= 2 and case["pseed"] % 2:
+        out["down_group"] = case["pseed"] % len(case["groups"])
+        sb = _advertised(case, out["down_group"])
+        rec.bucket("pool-tier:a-whole-group-of-the-pool-is-not-working")
+        if sb.inclusion_bounds is None or sb.exclusion_bounds is None:
+            return
     run_virtual(lambda: _drive_pool(case, out))
     rec.bucket("pool-tier:bounds-stream" + ("-first-accessed-after-the-statuses-are-known" if out.get("first_access_after_status") else ""))
     got = out.get("pool_bounds")
@@ -272,7 +286,8 @@ def check(case: dict[str, Any], rec: Any) -> None:
         rec.bucket("group-with-one-battery-not-working")
     if case.get("bystander"):
         rec.bucket("battery-group-outside-the-pool-present")
-    if case.get("not_working") and not case.get("bystander") and sb.inclusion_bounds is not None and sb.exclusion_bounds is not None:
+    if (case.get("not_working") or (len(case["groups"]) >= 2 and case["pseed"] % 4 == 1)) and not case.get("bystander") \
+            and not case.get("irregular") and sb.inclusion_bounds is not None and sb.exclusion_bounds is not None:
         _pool_tier(case, sb, rec)
         fakes.install_connection_manager(comps, conns)
     if case.get("zero_capacity"):
